@@ -128,12 +128,20 @@ def probe_orphan_sibling(seed, n):
                     await asyncio.sleep(0)
                 raise RuntimeError(name)
             if what and what[0] == "linger":
-                for _ in range(what[1]):
-                    await asyncio.sleep(0)
-                log.append(f"stale {name}")
-                r = what[2].send("nxt")
-                if asyncio.iscoroutine(r):
-                    await r
+                try:
+                    for _ in range(what[1]):
+                        await asyncio.sleep(0)
+                    log.append(f"stale {name}")
+                    r = what[2].send("nxt")
+                    if asyncio.iscoroutine(r):
+                        await r
+                finally:
+                    if what[3]:
+                        # asynchronous clean-up (an `async with`, a `finally` that awaits): when the sibling is given up,
+                        # it must be over before the failure is reported
+                        for _ in range(what[3]):
+                            await asyncio.sleep(0)
+                        log.append(f"cleaned up {name}")
             log.append(f"end {name}")
 
         def mk(name):
@@ -164,10 +172,11 @@ def probe_orphan_sibling(seed, n):
             sm = M(listeners=[Lst()] if on_listener else [])
         r_name, l_name = (names[grp][0], names[grp][1]) if raiser_first else (names[grp][1], names[grp][0])
         plan[r_name] = ("raise", j)
-        plan[l_name] = ("linger", k, sm)
+        plan[l_name] = ("linger", k, sm, rng.choice([0, 0, 1, 2]))
         expect = "b" if grp in ("enter", "after") else "a"
         cases += 1
-        what = f"group={grp} raiser={r_name} after {j}, sibling lingers {k}, {'loop' if in_loop else 'sync'} driver, second on {'a listener' if on_listener else 'the machine'}"
+        what = (f"group={grp} raiser={r_name} after {j}, sibling lingers {k} (clean-up awaits {plan[l_name][3]}), "
+                f"{'loop' if in_loop else 'sync'} driver, second on {'a listener' if on_listener else 'the machine'}")
 
         mark = []
 
